@@ -693,6 +693,34 @@ func summariseTypes(fails []typeFail, c *ev.Check, seed int64) {
 				}
 			}
 		}
+		// declared types that reject every (non-null) value they must accept
+		var unusable []string
+		ut, uv := -1, -1
+		for ti, t := range declTypes {
+			tot, wr := 0, 0
+			for vi, v := range valKinds {
+				if accepts(t, v) && v.base != "null" {
+					tot++
+					if fs[cellK{ti, vi}] == "wrong-reject" {
+						wr++
+					}
+				}
+			}
+			if tot > 0 && wr == tot {
+				unusable = append(unusable, t.src)
+				for vi := range valKinds {
+					if fs[cellK{ti, vi}] == "wrong-reject" {
+						done[cellK{ti, vi}] = true
+						if ut < 0 {
+							ut, uv = ti, vi
+						}
+					}
+				}
+			}
+		}
+		if len(unusable) > 0 {
+			add(bd.group, "wrong-reject", "rejects-every-value-of("+strings.Join(unusable, " ")+")", b, ut, uv)
+		}
 		for ti := range declTypes {
 			for vi := range valKinds {
 				k := cellK{ti, vi}
